@@ -512,7 +512,7 @@ class C08Executor(readfile.ReadFileExecutor):
                     return res
         return super().exec_block(stmts, st)
 
-    def call(self, st, f, args, kwargs, node):
+    def _call(self, st, f, args, kwargs, node):
         if isinstance(f, VFunc) and f.how == "classattr" and f.a == "int" and f.b == "from_bytes":
             return self.int_from_bytes(st, args, kwargs, node)
         if isinstance(f, VFunc) and f.how == "classattr" and str(f.a).endswith("ElementTree") and f.b == "fromstring":
@@ -543,7 +543,7 @@ class C08Executor(readfile.ReadFileExecutor):
         if not self.inline_calls and name not in INLINE_METHODS and self.reg.get(f"{self.module.rel}::{q}") is None:
             fnode = self.module.functions.get(q)
             small = fnode is not None and sum(1 for _ in ast.walk(fnode)) <= 700 and not any(fnode is x for x in self.cur_fn_stack)
-            if not (self.inline_local and small and self.inline_depth < 3 and self._relevant_helper(q)):
+            if not (self.inline_local and not self.merge and small and self.inline_depth < 3 and self._relevant_helper(q)):
                 return self.havoc_call(st, f"method:{name}", [obj] + list(args), node)
         return super().obj_method(st, obj, name, args, kwargs, node)
 
@@ -560,7 +560,8 @@ class C08Executor(readfile.ReadFileExecutor):
         return super().resolve_dotted(dotted_)
 
     RELEVANT = ("ExtractionFileEncryptedError", "Encrypted7zFile", "_encrypted", "needs_password", "decrypt", "patch_pypdf_fallback_aes",
-                "flag_bits", "is_encrypted", "CODER_AES_PREFIX", "FIB_ENCRYPTED_FLAG")
+                "flag_bits", "is_encrypted", "CODER_AES_PREFIX", "FIB_ENCRYPTED_FLAG", ".ole", "_get_stream", "openstream")
+    TRACKED_SORTS = ("DocReader", "PdfReader", "SevenZipFile", "EpubContext", "OleFile", "ZipFile", "OleStream", "Folder", "CoderId")
 
     def _relevant_helper(self, name, depth=0):
         """Does this same-module helper (or one it calls, two levels) take part in encryption detection?  Only such helpers are
@@ -580,8 +581,16 @@ class C08Executor(readfile.ReadFileExecutor):
         cache[name] = ok
         return ok
 
+    def call(self, st, f, args, kwargs, node):
+        self._cur_call_args = list(args) + list(kwargs.values())
+        return self._call(st, f, args, kwargs, node)
+
     def local_helper(self, f):
-        r = super().local_helper(f) and self._relevant_helper(f.b)
+        # relevant by what it does (tokens), or by what it is given: a helper that receives the opened container / reader /
+        # context takes part in the detection protocol (`_read_document(reader, path)`)
+        handed = not self.merge and any(isinstance(a, VExt) and a.sort in self.TRACKED_SORTS for a in getattr(self, "_cur_call_args", ()))
+        # (once the rejection site is passed -- merged mode -- helpers that merely use the open container are not followed)
+        r = not self.merge and super().local_helper(f) and (self._relevant_helper(f.b) or handed)
         if r and os.environ.get("C08_TRACE_INLINE"):
             print(f"[inline_local] {self.contract.target.split('::')[-1] if self.contract else '?'} <- {f.b}", file=sys.stderr, flush=True)
         return r
@@ -703,7 +712,7 @@ class C08Executor(readfile.ReadFileExecutor):
             return inferred[1]
         if isinstance(node, ast.For) and kind == "for" and isinstance(it, VSeq) and isinstance(it.tag, tuple) and it.tag:
             return LOOP_RULES.get((it.ekind, it.tag[0]))
-        if isinstance(node, ast.While) and kind == "while" and st is not None:
+        if isinstance(node, ast.While) and kind == "while" and st is not None and self.module.rel == ENC:
             env = st.frames[-1].env
             if len([v for v in env.values() if isinstance(v, VSeq) and v.is_bytes and isinstance(v.tag, tuple)]) == 1:
                 return LOOP_RULES.get(("while", "record-chain"))
@@ -2297,6 +2306,45 @@ def _canon(mod, call):
     return (origin + ("." + rest if rest else "")) if origin else d
 
 
+class _ReturnFacts(MustFacts):
+    """MustFacts that also records the facts holding at every `return` of the analysed function."""
+
+    def run(self, fnode, entry_facts=()):
+        self.results, self.at_return = [], []
+        end = self.block(fnode.body, frozenset(entry_facts))
+        if end is not None:
+            self.at_return.append(end)          # falling off the end
+        return self.results
+
+    def stmt(self, s, facts):
+        if isinstance(s, ast.Return):
+            self.at_return.append(self._expr(s.value, facts))
+            return None
+        return super().stmt(s, facts)
+
+
+def _surely_parses(m, call, depth=0, seen=()):
+    """The call is the parse itself (`<reader>.read()`), or a call of a helper of the same module (plain name or method) that
+    performs the parse on EVERY path on which it returns (summary computed on the helper's real AST; two levels)."""
+    if isinstance(call.func, ast.Attribute) and call.func.attr == "read":
+        return True
+    if depth >= 2:
+        return False
+    if isinstance(call.func, ast.Name):
+        name = call.func.id
+        fnode = m.functions.get(name)
+    elif isinstance(call.func, ast.Attribute) and isinstance(call.func.value, ast.Name) and call.func.value.id in ("self", "cls"):
+        name = call.func.attr
+        fnode = next((f_ for q_, f_ in m.functions.items() if q_.endswith("." + name) and "<locals>" not in q_), None)
+    else:
+        return False
+    if fnode is None or name in seen or any(isinstance(n, (ast.Yield, ast.YieldFrom)) for n in ast.walk(fnode)):
+        return False
+    rf = _ReturnFacts(gen=lambda c_: ["parsed"] if _surely_parses(m, c_, depth + 1, seen + (name,)) else [])
+    rf.run(fnode)
+    return all("parsed" in fs for fs in rf.at_return)
+
+
 def policy(repo, tier):
     obls, fns = [], []
     # P2: read_doc: the parse (doc.read()) dominates the yield; the reader is fresh (constructed in read_doc, _content None in __init__)
@@ -2305,7 +2353,7 @@ def policy(repo, tier):
     init = m.functions.get("_DocReader.__init__")
     ok, why = False, "read_doc / _DocReader.__init__ missing"
     if f is not None and init is not None:
-        mf = MustFacts(gen=lambda call: ["parsed"] if isinstance(call.func, ast.Attribute) and call.func.attr == "read" else [],
+        mf = MustFacts(gen=lambda call: ["parsed"] if _surely_parses(m, call) else [],
                        need=lambda n: [("parsed", f"line {n.lineno}")] if isinstance(n, (ast.Yield, ast.YieldFrom)) else [])
         res = mf.run(f)
         fresh = any(isinstance(n, ast.With) and any(isinstance(i.context_expr, ast.Call) and dotted(i.context_expr.func) == "_DocReader" for i in n.items)
